@@ -32,6 +32,10 @@ views  : every read-only port / method is judged too.  RTL: the count output eve
          cycles before its deq; judged by the CL model replay (ready iff the deque the consumer's block finds is non-empty, value =
          its oldest element = what deq returns, nothing removed: C17_cl_peek, C17_cl_peek_then_deq; kinds peek-rdy / peek-wrong);
          len(queue) is read as the count.  NormalQueueCL is run without peek (free block order) and with it (family cl+peek).
+         A third, PEEK-ONLY watcher block is run around every CL queue with producer / watcher / consumer declared in all 6 orders
+         (families cl+watch[pwc..cwp]); what it sees is judged by QueueCL.cl_at_watcher = the position the class's declared
+         constraints advertise (Normal: before both other blocks; Pipe: never a message enqueued this cycle; Bypass: always the
+         message enqueued this cycle; before/after the consumer as observed): kinds watcher-peek-rdy / watcher-peek-wrong.
 chains : harness/c17_chains.py -- the same queues AS USED through the library's own CL<->RTL adapters (RecvRTL2SendCL,
          RecvCL2SendRTL, the give->recv And adapter, stream Send/RecvQueueAdapter, StallCL in between) assembled with plain
          `connect`, and CL producers that keep ONE Bits / bitstruct message object and update it in place (also for every CL
@@ -56,10 +60,25 @@ CASE_T = 'Z * Z * Z * list ccode'
 def py_peek_ok(r, q, ef):
   """peek observed at the start of the consumer's block: ready iff the deque it finds is non-empty, value = its oldest element"""
   pk = r.get('pk')
-  if pk is None: return True
-  pr, pc, pv, enq_first = pk
-  st = q + [r['msg']] if (enq_first and ef) else q
-  return bool(pr) == bool(st) and (not pc or (bool(st) and pv == st[0]))
+  ok = True
+  if pk is not None:
+    pr, pc, pv, enq_first = pk
+    st = q + [r['msg']] if (enq_first and ef) else q
+    ok = bool(pr) == bool(st) and (not pc or (bool(st) and pv == st[0]))
+  return ok
+
+def py_watch_state(kind, r, q, ef, df):
+  """mirror of QueueCL.cl_at_watcher"""
+  wk = r['wk']
+  if kind == 0: return q
+  base = q + [r['msg']] if (kind == 2 and ef) else q
+  return base[1:] if (wk[3] and df) else base
+
+def py_watch_ok(kind, r, q, ef, df):
+  wk = r.get('wk')
+  if wk is None: return True
+  st = py_watch_state(kind, r, q, ef, df)
+  return bool(wk[0]) == bool(st) and (not wk[1] or (bool(st) and wk[2] == st[0]))
 
 def py_spec_first_bad(kind, n, hist):
   q = []
@@ -76,7 +95,7 @@ def py_spec_first_bad(kind, n, hist):
     ok = (r['er'] is None or bool(r['er']) == bool(er)) and (r['dr'] is None or bool(r['dr']) == bool(dr)) \
          and bool(r['ef']) == ef and bool(r['df']) == df and (not df or (q1 and r['out'] == q1[0])) \
          and (r['cnt'] is None or r['cnt'] == len(q)) \
-         and (not r.get('head') or not dr or not q1 or r['out'] == q1[0]) and py_peek_ok(r, q, ef)
+         and (not r.get('head') or not dr or not q1 or r['out'] == q1[0]) and py_peek_ok(r, q, ef) and py_watch_ok(kind, r, q, ef, df)
     if not ok: return i
     q = q1[1:] if df else q1
   return None
@@ -108,6 +127,11 @@ def py_deviations(kind, n, hist):
       st = q1 if pk[3] else q
       if bool(pk[0]) != bool(st): dev.append((i, 'peek-rdy'))
       elif pk[1] and pv_differs(pk, st): dev.append((i, 'peek-wrong'))
+    wk = r.get('wk')
+    if wk is not None:
+      st = py_watch_state(kind, r, q, ef, df)
+      if bool(wk[0]) != bool(st): dev.append((i, 'watcher-peek-rdy'))
+      elif wk[1] and ((not st) or wk[2] != st[0]): dev.append((i, 'watcher-peek-wrong'))
     if df:
       if not q1: dev.append((i, 'deq-from-empty'))
       elif r['out'] != q1[0]: dev.append((i, 'wrong-msg'))
@@ -221,8 +245,9 @@ class CLDrv(Drv):
     h.want_peek = int((msg * 7 + we + 2 * wd) % 4 != 0)    # read-only calls interleaved pseudo-randomly (a function of the offer: replayable)
     h.sim_tick()
     log = dict((x[0], x) for x in h.log)
-    assert len(h.log) == 2
-    order = [x[0] for x in h.log]
+    assert len(h.log) == (3 if 'watch' in log else 2)
+    order = [x[0] for x in h.log if x[0] != 'watch']
+    full_order = [x[0] for x in h.log]
     if s.mid is None: s.mid = 8 if order[0] == 'enq' else 9
     assert (8 if order[0] == 'enq' else 9) == s.mid, 'the schedule changed between cycles'
     _, er, ef = log['enq']; _, dr, df, out = log['deq'][:4]
@@ -230,7 +255,11 @@ class CLDrv(Drv):
     if len(log['deq']) > 4:      # (peek.rdy(), peek() called?, value) observed at the start of the consumer's block
       pr, pc, pv = log['deq'][4:7]
       pk = (int(pr), int(pc), int(pv), int(s.mid == 8))
-    return s.rec(0, we, msg, wd, we, wd, er, dr, ef, df, out if df else 0, cnt, (0, 0, 0, []), pk)
+    r = s.rec(0, we, msg, wd, we, wd, er, dr, ef, df, out if df else 0, cnt, (0, 0, 0, []), pk)
+    if 'watch' in log:           # peek-only watcher block: (rdy, called, value, ran after the consumer's block, ran after the producer's block)
+      _, wr, wc, wv = log['watch']
+      r['wk'] = (int(wr), int(wc), int(wv), int(full_order.index('watch') > full_order.index('deq')), int(full_order.index('watch') > full_order.index('enq')))
+    return r
 
 def make_drivers(tier):
   from pymtl3 import Component, Bits8, update_once
@@ -338,6 +367,39 @@ def make_drivers(tier):
         if s.want_deq and r:
           m = int(s.dut.deq()); f = True
         s.log.append(('deq', r, f, m))
+  class CLWatchHarness(Component):
+    """producer, consumer and a PEEK-ONLY watcher as three separate blocks, declared in the given order (the scheduler's
+    tie-break follows declaration order; the class's own method constraints must put the watcher where the kind advertises)"""
+    def construct(s, QT, n, perm):
+      s.dut = QT(num_entries=n)
+      s.want_enq = 0; s.want_deq = 0; s.want_peek = 0; s.msg = 0; s.log = []
+      for which in perm:
+        if which == 'p':
+          @update_once
+          def producer():
+            r = bool(s.dut.enq.rdy()); f = False
+            if s.want_enq and r:
+              s.dut.enq(s.msg); f = True
+            s.log.append(('enq', r, f))
+        elif which == 'c':
+          @update_once
+          def consumer():
+            r = bool(s.dut.deq.rdy()); f = False; m = 0
+            if s.want_deq and r:
+              m = int(s.dut.deq()); f = True
+            s.log.append(('deq', r, f, m))
+        else:
+          @update_once
+          def watcher():
+            pr = bool(s.dut.peek.rdy()); pc = False; pv = 0
+            if pr and s.want_peek:
+              pv = int(s.dut.peek()); pc = True
+            s.log.append(('watch', pr, pc, pv))
+  for kind in ('Normal', 'Pipe', 'Bypass'):
+    cls = getattr(C, f'{kind}QueueCL')
+    for n in caps:
+      for perm in ('pwc', 'pcw', 'wpc', 'wcp', 'cpw', 'cwp'):
+        drv.append(CLDrv(f'cl+watch[{perm}]', cls.__name__, kind, n, None, (lambda cls=cls, n=n, perm=perm: CLWatchHarness(cls, n, perm))))
   for kind in ('Normal', 'Pipe', 'Bypass'):
     cls = getattr(C, f'{kind}QueueCL')
     for n in caps:
@@ -385,6 +447,9 @@ def code(r):
   if pk is not None:
     f |= pk[1] << 13 | pk[0] << 14 | 1 << 15
     regs = [pk[2]]
+  wk = r.get('wk')
+  if wk is not None:
+    regs = [pk[2] if pk is not None else 0, 1 | wk[0] << 1 | wk[1] << 2 | wk[3] << 3, wk[2]]
   nib = lambda v: v if 0 <= v < 15 else 15          # 15 = "out of range" (legal values are <= 5 at capacities 1..5)
   x = f | r['msg'] << 16 | r['out'] << 24 | nib(r['cnt'] or 0) << 32 | nib(a) << 36 | nib(b) << 40 | nib(c) << 44 | len(regs) << 48
   for j, v in enumerate(regs): x |= v << (52 + 8 * j)
@@ -430,12 +495,12 @@ def dup_plans(rng, d, quick):
     out.append(('dup-fill', [(0, 1, 0)] * n + [(0, 0, 1)] * n, DupGen(rng, alpha, list(w) + [1 - w[0]])))
     out.append(('dup-stream', [(0, 1, 0)] * n + [(0, 1, 1)] * (n + 1) + [(0, 0, 1)] * n, DupGen(rng, alpha, list(w) + list(w[::-1]))))
   # random offer timing with cyclic patterns (v,w,v ; palindromes ; runs) and with random symbols from tiny alphabets
-  for k in range(3 if quick else 10):
+  for k in range(2 if quick else 10):
     pat = PATTERNS[(k + n) % len(PATTERNS)]
     fits = [a for a in ALPHABETS if len(a) > max(pat)]
     alpha = fits[k % len(fits)]
     out.append(('dup-pattern', random_wants(rng, 80 if quick else 200, False), DupGen(rng, alpha, pat)))
-  for k in range(3 if quick else 10):
+  for k in range(2 if quick else 10):
     out.append(('dup-random', random_wants(rng, 80 if quick else 200, d.has_reset and k % 2 == 1), DupGen(rng, ALPHABETS[(k + n) % len(ALPHABETS)])))
   return out
 
@@ -446,7 +511,7 @@ def exhaustive_wants(n, depth, rots, rot_depth):
     for seq in itertools.product(range(4), repeat=depth):
       yield 'exh', [(0, 1, 0)] * L + [(0, c >> 1, c & 1) for c in seq]
   for R in rots:
-    for L in range(n + 1):
+    for L in (range(n + 1) if rot_depth > 2 else sorted({0, max(0, n - 1), n})):     # quick: boundary occupancies only
       for seq in itertools.product(range(4), repeat=rot_depth):
         yield 'exh-rot', [(0, 1, 1)] * R + [(0, 1, 0)] * L + [(0, c >> 1, c & 1) for c in seq]
 
@@ -534,12 +599,17 @@ def run(ctx):
       unsupported.append((d, e)); continue
     # rotations: quick = the wrap boundary only (head at n-1 / n), thorough = every head position
     rots = ([d.n - 1, d.n] if quick else list(range(1, d.n + 2))) if d.n > 1 else []
-    light = d.family.startswith('cl+reuse')     # same classes as 'cl' (fully enumerated there); here only the producer differs
+    light = d.family.startswith('cl+reuse') or d.family.startswith('cl+watch')     # same classes as 'cl' (fully enumerated there); here only the producer differs
     plans = list(exhaustive_wants(d.n, 2 if light else depth, [] if light else rots, 2 if quick else 3))
     if not quick and d.n <= 2 and not light:    # every offer sequence of depth 5 from the empty queue
       plans += [('exh-deep', [(0, c >> 1, c & 1) for c in seq]) for seq in itertools.product(range(4), repeat=5)]
-    plans += [('rnd', random_wants(rng, 200, d.has_reset)) for _ in range(nrand)]
-    plans = [(tag, wants, mg) for tag, wants in plans] + dup_plans(rng, d, quick)
+    plans += [('rnd', random_wants(rng, 120 if quick else 200, d.has_reset)) for _ in range(nrand)]
+    if d.family.startswith('cl+watch'):      # 6 block orders x 15 queues: short enumeration at the boundary occupancies + one random history
+      plans = [(t, w) for t, w in exhaustive_wants(d.n, 2, [], 2) if sum(1 for x in w[:-2] if x == (0, 1, 0)) in ((0, d.n) if quick else (0, d.n - 1, d.n))]
+      plans += [('rnd', random_wants(rng, 60 if quick else 200, False)) for _ in range(1 if quick else 4)]
+      plans = [(tag, wants, mg) for tag, wants in plans]
+    else:
+      plans = [(tag, wants, mg) for tag, wants in plans] + dup_plans(rng, d, quick)
     for tag, wants, gen in plans:
       try:
         hist = run_case(d, wants, gen)
@@ -658,7 +728,7 @@ def run(ctx):
     key = f'C17:{d.label}:history' + ('' if k == 'enq-rdy-low' else f':{k}')
     ctx.violation(key,
                   f'{d.label} [{k}] leaves the FIFO specification in cycle {cq} of: (rst,want_enq,msg,want_deq) = {offers}; observed there enq_rdy={r["er"]} '
-                  f'deq_rdy/val={r["dr"]} enq_fire={r["ef"]} deq_fire={r["df"]} msg/data={r["out"]} count={r["cnt"]} peek(rdy,called,value,after_enq)={r.get("pk")}; the Coq spec expects '
+                  f'deq_rdy/val={r["dr"]} enq_fire={r["ef"]} deq_fire={r["df"]} msg/data={r["out"]} count={r["cnt"]} peek(rdy,called,value,after_enq)={r.get("pk")} watcher(rdy,called,value,after_consumer,after_producer)={r.get("wk")}; the Coq spec expects '
                   f'(enq_rdy,deq_rdy,enq_fire,deq_fire,msg,count,queue) = {exp}',
                   {'queue': d.label, 'kind': d.kind, 'capacity': d.n, 'deviation': k, 'plan': tag, 'offers(rst,want_enq,msg,want_deq)': offers,
                    'observed': small, 'coq_first_bad_cycle(spec, any)': conf[0], 'coq_spec_expects_at_that_cycle': exp, 'coq_case': term,
